@@ -1130,6 +1130,7 @@ class C08Oracle(Oracle):
 
 class C09Oracle(Oracle):
     extra_ops = {"iou_toggle": 1}
+    extra_may_raise = ("iou_toggle",)
 
     def _on(self):
         return "iou" in self.w.tracks.annotators.features
@@ -1169,6 +1170,12 @@ class C09Oracle(Oracle):
                 self.col.event(f"iou_edge:skip:{how}:trivial")
 
     def after(self, op, out, pre, post):
+        if not out.ok and (op["op"] == "iou_toggle" or (op["op"] == "enable" and op["keys"] == ["iou"])):
+            # tracks with a label image offer the IoU feature in every state (also without edges)
+            self.rep(f"iou_switch_raised:{op.get('mode', 'enable')}",
+                     f"switching the IoU feature ({op.get('mode', 'enable')}) raised {out.exc!r} "
+                     f"({self.w.tracks.graph.number_of_edges()} edges)")
+            return
         if not self._on():
             return
         kind = op["op"]
@@ -1186,6 +1193,7 @@ class C10Oracle(Oracle):
     # by the caller's choice, and the roll-back of a refused edit legitimately re-measures them
     owns_atomicity = True
     extra_ops = {"enable_norecompute": 1.5, "core_toggle": 1.0}
+    extra_may_raise = ("core_toggle",)
 
     def _core_ids(self):
         w = self.w
